@@ -4,24 +4,898 @@ import WD.Spec.InoBufferSpec
 namespace WD.ProofsIB
 open WD.IB
 
+/-! ### projections of the ghost history -/
+
+/-- observations that are neither `put`, `got` nor `removed` -/
+def Neutral : Obs → Prop
+  | .gotNone _ _ => True
+  | .removedNone _ _ => True
+  | .closed _ _ => True
+  | _ => False
+
+theorem puts_append (h : List Obs) (o : Obs) :
+    puts (h ++ [o]) = match o with | .put _ e _ _ => puts h ++ [e] | _ => puts h := by
+  cases o <;> simp [puts, List.filterMap_append]
+
+theorem gots_append (h : List Obs) (o : Obs) :
+    gots (h ++ [o]) = match o with | .got _ e _ => gots h ++ [e] | _ => gots h := by
+  cases o <;> simp [gots, List.filterMap_append]
+
+theorem removeds_append (h : List Obs) (o : Obs) :
+    removeds (h ++ [o]) = match o with | .removed _ e _ => removeds h ++ [e] | _ => removeds h := by
+  cases o <;> simp [removeds, List.filterMap_append]
+
+theorem mem_puts {h : List Obs} {e : Elem} : e ∈ puts h ↔ ∃ a d t, Obs.put a e d t ∈ h := by
+  simp only [puts, List.mem_filterMap]
+  constructor
+  · rintro ⟨o, ho, heq⟩
+    cases o <;> simp at heq
+    subst heq; exact ⟨_, _, _, ho⟩
+  · rintro ⟨a, d, t, ho⟩
+    exact ⟨_, ho, rfl⟩
+
+theorem mem_gots {h : List Obs} {e : Elem} : e ∈ gots h ↔ ∃ a t, Obs.got a e t ∈ h := by
+  simp only [gots, List.mem_filterMap]
+  constructor
+  · rintro ⟨o, ho, heq⟩
+    cases o <;> simp at heq
+    subst heq; exact ⟨_, _, ho⟩
+  · rintro ⟨a, t, ho⟩
+    exact ⟨_, ho, rfl⟩
+
+theorem live_sub_puts {h : List Obs} {e : Elem} (he : e ∈ live h) : e ∈ puts h := by
+  simp only [live, List.mem_filter] at he
+  exact he.1
+
+theorem not_removed_of_live {h : List Obs} {e : Elem} (he : e ∈ live h) : e ∉ removeds h := by
+  simp only [live, List.mem_filter] at he
+  simpa using he.2
+
+theorem live_append_put (h : List Obs) (a : Nat) (e : Elem) (d : Bool) (t : Nat) (hne : e ∉ removeds h) :
+    live (h ++ [Obs.put a e d t]) = live h ++ [e] := by
+  simp [live, puts_append, removeds_append, List.filter_append, hne]
+
+theorem live_append_got (h : List Obs) (a : Nat) (e : Elem) (t : Nat) :
+    live (h ++ [Obs.got a e t]) = live h := by
+  simp [live, puts_append, removeds_append]
+
+theorem live_append_neutral (h : List Obs) (o : Obs) (hn : Neutral o) :
+    live (h ++ [o]) = live h := by
+  cases o <;> simp [Neutral] at hn <;> simp [live, puts_append, removeds_append]
+
+theorem live_append_removed (h : List Obs) (a : Nat) (e : Elem) (t : Nat) :
+    live (h ++ [Obs.removed a e t]) = (live h).filter (fun x => !decide (x = e)) := by
+  simp only [live, puts_append, removeds_append, List.filter_filter]
+  apply List.filter_congr
+  intro x _
+  by_cases hx : x = e <;> simp [hx]
+
+theorem filter_ne_of_nodup {α} [DecidableEq α] (A B : List α) (x : α) (hnd : (A ++ x :: B).Nodup) :
+    (A ++ x :: B).filter (fun y => !decide (y = x)) = A ++ B := by
+  have h1 : x ∉ A := by
+    intro hx
+    have := (List.nodup_append.1 hnd).2.2 x hx x (by simp)
+    exact this rfl
+  have h2 : x ∉ B := by
+    have := (List.nodup_append.1 hnd).2.1
+    exact (List.nodup_cons.1 this).1
+  have hA : A.filter (fun y => !decide (y = x)) = A := by
+    apply List.filter_eq_self.2
+    intro y hy; simp; intro hyx; exact h1 (hyx ▸ hy)
+  have hB : B.filter (fun y => !decide (y = x)) = B := by
+    apply List.filter_eq_self.2
+    intro y hy; simp; intro hyx; exact h2 (hyx ▸ hy)
+  simp [List.filter_append, hA, hB]
+
+theorem removeFirst_spec {v : Nat} {q q' : List Entry} {e : Entry} (h : removeFirst v q = some (e, q')) :
+    ∃ l1 l2, q = l1 ++ e :: l2 ∧ q' = l1 ++ l2 := by
+  induction q generalizing q' with
+  | nil => simp [removeFirst] at h
+  | cons x rest ih =>
+    unfold removeFirst at h
+    split at h
+    · simp at h
+      obtain ⟨rfl, rfl⟩ := h
+      exact ⟨[], _, rfl, rfl⟩
+    · split at h
+      · rename_i y r hr
+        simp at h
+        obtain ⟨rfl, rfl⟩ := h
+        obtain ⟨l1, l2, h1, h2⟩ := ih hr
+        exact ⟨x :: l1, l2, by simp [h1], by simp [h2]⟩
+      · simp at h
+
+/-! ### invariant on history and queue -/
+
+structure InvH (D : Nat) (h : List Obs) (q : List Entry) : Prop where
+  acc : live h = gots h ++ q.map Entry.elem
+  putsU : ((puts h).map Elem.uid).Nodup
+  remSub : ∀ e ∈ removeds h, e ∈ puts h
+  remNodup : (removeds h).Nodup
+  qHist : ∀ en ∈ q, ∃ a, Obs.put a en.elem en.delayed en.ins ∈ h
+  putUniq : ∀ a e d t a' d' t', Obs.put a e d t ∈ h → Obs.put a' e d' t' ∈ h → d = d' ∧ t = t'
+  ne : ∀ a e t a' t0, Obs.got a e t ∈ h → Obs.put a' e true t0 ∈ h → t0 + D ≤ t
+
+theorem InvH.puts_nodup {D h q} (I : InvH D h q) : (puts h).Nodup :=
+  List.Pairwise.of_map Elem.uid (fun _ _ h he => h (he ▸ rfl)) I.putsU
+
+theorem InvH.live_nodup {D h q} (I : InvH D h q) : (live h).Nodup :=
+  List.Nodup.sublist List.filter_sublist I.puts_nodup
+
+theorem InvH.got_in_puts {D h q} (I : InvH D h q) {e : Elem} (he : e ∈ gots h) : e ∈ puts h := by
+  apply live_sub_puts
+  rw [I.acc]; simp [he]
+
+theorem InvH.init (D : Nat) : InvH D [] [] := by
+  constructor <;> simp [live, puts, gots, removeds]
+
+theorem InvH.neutral {D h q} (I : InvH D h q) (o : Obs) (hn : Neutral o) : InvH D (h ++ [o]) q := by
+  have hp : puts (h ++ [o]) = puts h := by cases o <;> simp [Neutral] at hn <;> simp [puts_append]
+  have hg : gots (h ++ [o]) = gots h := by cases o <;> simp [Neutral] at hn <;> simp [gots_append]
+  have hr : removeds (h ++ [o]) = removeds h := by cases o <;> simp [Neutral] at hn <;> simp [removeds_append]
+  have hmp : ∀ a e d t, Obs.put a e d t ∈ h ++ [o] ↔ Obs.put a e d t ∈ h := by
+    intro a e d t; cases o <;> simp [Neutral] at hn <;> simp
+  have hmg : ∀ a e t, Obs.got a e t ∈ h ++ [o] ↔ Obs.got a e t ∈ h := by
+    intro a e t; cases o <;> simp [Neutral] at hn <;> simp
+  constructor
+  · rw [live_append_neutral _ _ hn, hg]; exact I.acc
+  · rw [hp]; exact I.putsU
+  · rw [hp, hr]; exact I.remSub
+  · rw [hr]; exact I.remNodup
+  · intro en hen; obtain ⟨a, ha⟩ := I.qHist en hen; exact ⟨a, (hmp ..).2 ha⟩
+  · intro a e d t a' d' t' h1 h2; exact I.putUniq a e d t a' d' t' ((hmp ..).1 h1) ((hmp ..).1 h2)
+  · intro a e t a' t0 h1 h2; exact I.ne a e t a' t0 ((hmg ..).1 h1) ((hmp ..).1 h2)
+
+theorem InvH.put {D h q} (I : InvH D h q) (a : Nat) (e : Elem) (d : Bool) (c : Nat)
+    (fresh : ∀ e' ∈ puts h, e.uid ≠ e'.uid) :
+    InvH D (h ++ [Obs.put a e d c]) (q ++ [⟨e, c, d⟩]) := by
+  have hnp : e ∉ puts h := fun he => fresh e he rfl
+  have hnr : e ∉ removeds h := fun he => hnp (I.remSub e he)
+  have hnpo : ∀ a d t, Obs.put a e d t ∉ h := fun a d t ho => hnp (mem_puts.2 ⟨a, d, t, ho⟩)
+  constructor
+  · rw [live_append_put _ _ _ _ _ hnr, I.acc]; simp [gots_append]
+  · simp only [puts_append, List.map_append, List.map_cons, List.map_nil]
+    refine List.nodup_append.2 ⟨I.putsU, by simp, ?_⟩
+    intro u hu b hb
+    simp at hb; subst hb
+    obtain ⟨e', he', rfl⟩ := List.mem_map.1 hu
+    exact fun hh => fresh e' he' hh.symm
+  · simp only [puts_append, removeds_append]
+    intro x hx; exact List.mem_append_left _ (I.remSub x hx)
+  · simp only [removeds_append]; exact I.remNodup
+  · intro en hen
+    rcases List.mem_append.1 hen with hen | hen
+    · obtain ⟨a', ha'⟩ := I.qHist en hen; exact ⟨a', List.mem_append_left _ ha'⟩
+    · simp at hen; subst hen; exact ⟨a, by simp⟩
+  · intro a1 e1 d1 t1 a2 d2 t2 h1 h2
+    simp only [List.mem_append, List.mem_singleton] at h1 h2
+    rcases h1 with h1 | h1 <;> rcases h2 with h2 | h2
+    · exact I.putUniq _ _ _ _ _ _ _ h1 h2
+    · injection h2 with _ he _ _; subst he; exact absurd h1 (hnpo _ _ _)
+    · injection h1 with _ he _ _; subst he; exact absurd h2 (hnpo _ _ _)
+    · injection h1 with _ he hd ht; injection h2 with _ he' hd' ht'
+      subst hd ht hd' ht'; exact ⟨rfl, rfl⟩
+  · intro a1 e1 t1 a2 t0 h1 h2
+    simp only [List.mem_append, List.mem_singleton, reduceCtorEq, or_false] at h1
+    simp only [List.mem_append, List.mem_singleton] at h2
+    rcases h2 with h2 | h2
+    · exact I.ne _ _ _ _ _ h1 h2
+    · injection h2 with _ he _ _; subst he
+      exact absurd (I.got_in_puts (mem_gots.2 ⟨_, _, h1⟩)) hnp
+
+theorem InvH.got {D h hd rest} (I : InvH D h (hd :: rest)) (a c : Nat)
+    (hne : ∀ a' t0, Obs.put a' hd.elem true t0 ∈ h → t0 + D ≤ c) :
+    InvH D (h ++ [Obs.got a hd.elem c]) rest := by
+  constructor
+  · rw [live_append_got, I.acc]; simp [gots_append]
+  · simp only [puts_append]; exact I.putsU
+  · simp only [puts_append, removeds_append]; exact I.remSub
+  · simp only [removeds_append]; exact I.remNodup
+  · intro en hen
+    obtain ⟨a', ha'⟩ := I.qHist en (List.mem_cons_of_mem _ hen)
+    exact ⟨a', List.mem_append_left _ ha'⟩
+  · intro a1 e1 d1 t1 a2 d2 t2 h1 h2
+    simp only [List.mem_append, List.mem_singleton, reduceCtorEq, or_false] at h1 h2
+    exact I.putUniq _ _ _ _ _ _ _ h1 h2
+  · intro a1 e1 t1 a2 t0 h1 h2
+    simp only [List.mem_append, List.mem_singleton, reduceCtorEq, or_false] at h2
+    simp only [List.mem_append, List.mem_singleton] at h1
+    rcases h1 with h1 | h1
+    · exact I.ne _ _ _ _ _ h1 h2
+    · injection h1 with _ he ht; subst he ht
+      exact hne _ _ h2
+
+theorem InvH.removed {D h q q' v e} (I : InvH D h q) (a c : Nat) (hrf : removeFirst v q = some (e, q')) :
+    InvH D (h ++ [Obs.removed a e.elem c]) q' := by
+  obtain ⟨l1, l2, rfl, rfl⟩ := removeFirst_spec hrf
+  have hel : e.elem ∈ live h := by rw [I.acc]; simp
+  constructor
+  · rw [live_append_removed, I.acc]
+    have hnd := I.live_nodup
+    rw [I.acc] at hnd
+    simp only [List.map_append, List.map_cons, ← List.append_assoc] at hnd ⊢
+    simpa [gots_append] using filter_ne_of_nodup _ _ _ hnd
+  · simp only [puts_append]; exact I.putsU
+  · simp only [puts_append, removeds_append]
+    intro x hx
+    rcases List.mem_append.1 hx with hx | hx
+    · exact I.remSub x hx
+    · simp at hx; subst hx; exact live_sub_puts hel
+  · simp only [removeds_append]
+    refine List.nodup_append.2 ⟨I.remNodup, by simp, ?_⟩
+    intro x hx b hb
+    simp at hb; subst hb
+    exact fun hh => not_removed_of_live hel (hh ▸ hx)
+  · intro en hen
+    have : en ∈ l1 ++ e :: l2 := by
+      rcases List.mem_append.1 hen with h1 | h1
+      · exact List.mem_append_left _ h1
+      · exact List.mem_append_right _ (List.mem_cons_of_mem _ h1)
+    obtain ⟨a', ha'⟩ := I.qHist en this
+    exact ⟨a', List.mem_append_left _ ha'⟩
+  · intro a1 e1 d1 t1 a2 d2 t2 h1 h2
+    simp only [List.mem_append, List.mem_singleton, reduceCtorEq, or_false] at h1 h2
+    exact I.putUniq _ _ _ _ _ _ _ h1 h2
+  · intro a1 e1 t1 a2 t0 h1 h2
+    simp only [List.mem_append, List.mem_singleton, reduceCtorEq, or_false] at h1 h2
+    exact I.ne _ _ _ _ _ h1 h2
+
+/-! ### normal forms of the state operations -/
+
+def arriveTO (c : Nat) (t : Thread) : Bool → List Op → Thread
+  | _, [] => { t with pc := .done, script := [] }
+  | _, .setStop :: rest => arriveTO c t true rest
+  | f, .exitIfStopped :: rest =>
+    if f then { t with pc := .done, script := [] } else arriveTO c t f rest
+  | _, .put e d :: rest => { t with pc := .putAcq e d, script := rest, notified := false }
+  | _, .get :: rest => { t with pc := .getAcq, script := rest, notified := false }
+  | _, .remove v :: rest => { t with pc := .remAcq v, script := rest, notified := false }
+  | _, .close :: rest => { t with pc := .closeFlag, script := rest, notified := false }
+  | _, .sleep d :: rest => { t with pc := .sleeping (c + d), script := rest, notified := false }
+  | _, .waitStop :: rest => { t with pc := .waitingStop, script := rest, notified := false }
+  | _, .join j :: rest => { t with pc := .joining j, script := rest, notified := false }
+
+def arriveFO : Bool → List Op → Bool
+  | f, [] => f
+  | _, .setStop :: rest => arriveFO true rest
+  | f, .exitIfStopped :: rest => if f then f else arriveFO f rest
+  | f, _ :: _ => f
+
+def arriveT (c : Nat) (f : Bool) (t : Thread) : Thread := arriveTO c t f t.script
+
+theorem arriveOps_eq (s : State) (tid : Nat) (t : Thread) (ops : List Op) :
+    arriveOps s tid t ops =
+      { s with stopFlag := arriveFO s.stopFlag ops,
+               threads := s.threads.set tid (arriveTO s.clock t s.stopFlag ops) } := by
+  induction ops generalizing s with
+  | nil => simp [arriveOps, arriveTO, arriveFO, State.setThread]
+  | cons op rest ih =>
+    cases op <;> simp [arriveOps, arriveTO, arriveFO, State.setThread, ih]
+    all_goals (split <;> simp)
+
+theorem arrive_eq (s : State) (tid : Nat) (t : Thread) :
+    arrive s tid t =
+      { s with stopFlag := arriveFO s.stopFlag t.script,
+               threads := s.threads.set tid (arriveT s.clock s.stopFlag t) } :=
+  arriveOps_eq s tid t t.script
+
+def notifyThreads (ths : List Thread) (ws : List Nat) : List Thread :=
+  match ws with
+  | [] => ths
+  | w :: _ =>
+    match ths[w]? with
+    | some t => ths.set w { t with notified := true }
+    | none => ths
+
+theorem notifyOne_eq (s : State) :
+    notifyOne s = { s with threads := notifyThreads s.threads s.waiters, waiters := s.waiters.tail } := by
+  cases s with
+  | mk dl c q cl ws sf ths hs =>
+  unfold notifyOne notifyThreads State.thread? State.setThread
+  cases ws with
+  | nil => simp
+  | cons w rest =>
+    simp only
+    cases hw : ths[w]? <;> simp
+
+theorem notifyThreads_get (ths : List Thread) (ws : List Nat) (j : Nat) :
+    (notifyThreads ths ws)[j]? =
+      (ths[j]?).map (fun t => if ws.head? = some j then { t with notified := true } else t) := by
+  unfold notifyThreads
+  split
+  · simp
+  · rename_i w rest
+    split
+    · rename_i t ht
+      rw [List.getElem?_set]
+      by_cases hwj : w = j
+      · subst hwj
+        have hlt : w < ths.length := (List.getElem?_eq_some_iff.1 ht).1
+        rw [ht]; simp [hlt]
+      · simp [hwj]
+    · rename_i ht
+      by_cases hwj : w = j
+      · subst hwj; simp [ht]
+      · simp [hwj]
+
+theorem get_set_cases {α} {l : List α} {i j : Nat} {a b : α} (h : (l.set i a)[j]? = some b) :
+    (j = i ∧ b = a) ∨ (j ≠ i ∧ l[j]? = some b) := by
+  rw [List.getElem?_set] at h
+  split at h
+  · rename_i hij
+    split at h
+    · simp at h; exact Or.inl ⟨hij.symm, h.symm⟩
+    · simp at h
+  · rename_i hij
+    exact Or.inr ⟨fun hh => hij hh.symm, h⟩
+
+theorem notifyThreads_cases {ths : List Thread} {ws : List Nat} {j : Nat} {tj : Thread}
+    (h : (notifyThreads ths ws)[j]? = some tj) :
+    ∃ t0, ths[j]? = some t0 ∧ tj.pc = t0.pc ∧ tj.script = t0.script ∧
+      (tj = t0 ∨ (ws.head? = some j ∧ tj.notified = true)) := by
+  rw [notifyThreads_get] at h
+  cases h0 : ths[j]? with
+  | none => simp [h0] at h
+  | some t0 =>
+    simp [h0] at h
+    refine ⟨t0, rfl, ?_⟩
+    split at h
+    · subst h; simp_all
+    · subst h; simp
+
+/-! ### invariant on threads -/
+
+/-- elements the thread is still going to put -/
+def pend (t : Thread) : List Elem :=
+  (match t.pc with
+    | .putAcq e _ => [e]
+    | _ => []) ++ opPuts t.script
+
+theorem pend_congr {t t' : Thread} (h1 : t'.pc = t.pc) (h2 : t'.script = t.script) : pend t' = pend t := by
+  simp [pend, h1, h2]
+
+theorem pend_arriveTO (c : Nat) (t : Thread) (f : Bool) (ops : List Op) :
+    (pend (arriveTO c t f ops)).Sublist (opPuts ops) := by
+  induction ops generalizing f with
+  | nil => simp [arriveTO, pend, opPuts]
+  | cons op rest ih =>
+    cases op
+    case setStop => simp only [arriveTO, opPuts]; exact ih _
+    case exitIfStopped =>
+      simp only [arriveTO, opPuts]
+      split
+      · simp [pend, opPuts]
+      · exact ih _
+    all_goals simp [arriveTO, pend, opPuts]
+
+theorem pend_arriveT (c : Nat) (f : Bool) (t : Thread) :
+    (pend (arriveT c f t)).Sublist (opPuts t.script) := pend_arriveTO c t f t.script
+
+theorem opPuts_sub_pend {t : Thread} {e : Elem} (h : e ∈ opPuts t.script) : e ∈ pend t := by
+  simp [pend, h]
+
+structure TOk (D c : Nat) (h : List Obs) (t : Thread) : Prop where
+  pendU : ((pend t).map Elem.uid).Nodup
+  pendPuts : ∀ e ∈ pend t, ∀ e' ∈ puts h, e.uid ≠ e'.uid
+  popOk : ∀ hd, t.pc = .getPop hd →
+    (∃ a, Obs.put a hd.elem hd.delayed hd.ins ∈ h) ∧ (hd.delayed = true → hd.ins + D ≤ c)
+  sleepOk : ∀ hd dl, t.pc = .getSleep hd dl →
+    (∃ a, Obs.put a hd.elem hd.delayed hd.ins ∈ h) ∧ hd.ins + D ≤ dl
+
+structure InvT (D c : Nat) (h : List Obs) (ths : List Thread) : Prop where
+  ok : ∀ (i : Nat) t, ths[i]? = some t → TOk D c h t
+  pendX : ∀ (i j : Nat) ti tj, ths[i]? = some ti → ths[j]? = some tj → i ≠ j →
+    ∀ e ∈ pend ti, ∀ e' ∈ pend tj, e.uid ≠ e'.uid
+
+theorem TOk.congr {D c h t t'} (I : TOk D c h t) (h1 : t'.pc = t.pc) (h2 : t'.script = t.script) :
+    TOk D c h t' := by
+  have hp := pend_congr h1 h2
+  constructor
+  · rw [hp]; exact I.pendU
+  · rw [hp]; exact I.pendPuts
+  · rw [h1]; exact I.popOk
+  · rw [h1]; exact I.sleepOk
+
+theorem TOk.mono {D c c' h h' t} (I : TOk D c h t) (hc : c ≤ c') (hh : ∀ o ∈ h, o ∈ h')
+    (hp : puts h' = puts h) : TOk D c' h' t := by
+  constructor
+  · exact I.pendU
+  · rw [hp]; exact I.pendPuts
+  · intro hd hpc
+    obtain ⟨⟨a, ha⟩, h2⟩ := I.popOk hd hpc
+    exact ⟨⟨a, hh _ ha⟩, fun hdel => Nat.le_trans (h2 hdel) hc⟩
+  · intro hd dl hpc
+    obtain ⟨⟨a, ha⟩, h2⟩ := I.sleepOk hd dl hpc
+    exact ⟨⟨a, hh _ ha⟩, h2⟩
+
+theorem InvT.mono {D c c' h h' ths} (I : InvT D c h ths) (hc : c ≤ c') (hh : ∀ o ∈ h, o ∈ h')
+    (hp : puts h' = puts h) : InvT D c' h' ths :=
+  ⟨fun i t hi => (I.ok i t hi).mono hc hh hp, I.pendX⟩
+
+theorem InvT.map {D c h ths ths'} (I : InvT D c h ths)
+    (hm : ∀ (j : Nat) tj, ths'[j]? = some tj → ∃ t0, ths[j]? = some t0 ∧ tj.pc = t0.pc ∧ tj.script = t0.script) :
+    InvT D c h ths' := by
+  constructor
+  · intro i t hi
+    obtain ⟨t0, h0, h1, h2⟩ := hm i t hi
+    exact (I.ok i t0 h0).congr h1 h2
+  · intro i j ti tj hi hj hij e he e' he'
+    obtain ⟨t0, h0, h1, h2⟩ := hm i ti hi
+    obtain ⟨t0', h0', h1', h2'⟩ := hm j tj hj
+    rw [pend_congr h1 h2] at he
+    rw [pend_congr h1' h2'] at he'
+    exact I.pendX i j t0 t0' h0 h0' hij e he e' he'
+
+theorem InvT.notify {D c h ths} (I : InvT D c h ths) (ws : List Nat) :
+    InvT D c h (notifyThreads ths ws) :=
+  I.map (fun _ _ hj => by
+    obtain ⟨t0, h0, h1, h2, _⟩ := notifyThreads_cases hj
+    exact ⟨t0, h0, h1, h2⟩)
+
+theorem InvT.set {D c h ths i t t'} (I : InvT D c h ths) (hi : ths[i]? = some t)
+    (ok : TOk D c h t') (hp : ∀ e ∈ pend t', e ∈ pend t) : InvT D c h (ths.set i t') := by
+  constructor
+  · intro j tj hj
+    rcases get_set_cases hj with ⟨rfl, rfl⟩ | ⟨_, hj⟩
+    · exact ok
+    · exact I.ok j tj hj
+  · intro j k tj tk hj hk hjk e he e' he'
+    rcases get_set_cases hj with ⟨rfl, rfl⟩ | ⟨hji, hj'⟩ <;>
+      rcases get_set_cases hk with ⟨rfl, rfl⟩ | ⟨hki, hk'⟩
+    · exact absurd rfl hjk
+    · exact I.pendX _ _ _ _ hi hk' hjk e (hp e he) e' he'
+    · exact I.pendX _ _ _ _ hj' hi hjk e he e' (hp e' he')
+    · exact I.pendX _ _ _ _ hj' hk' hjk e he e' he'
+
+theorem InvT.put {D c h ths i t t' e d} (I : InvT D c h ths) (a : Nat) (hi : ths[i]? = some t)
+    (hpc : t.pc = .putAcq e d) (hpop : ∀ hd, t'.pc ≠ .getPop hd) (hsl : ∀ hd dl, t'.pc ≠ .getSleep hd dl)
+    (hp : (pend t').Sublist (opPuts t.script)) : InvT D c (h ++ [Obs.put a e d c]) (ths.set i t') := by
+  have hpt : pend t = e :: opPuts t.script := by simp [pend, hpc]
+  have hU := (I.ok i t hi).pendU
+  rw [hpt] at hU
+  simp only [List.map_cons, List.nodup_cons] at hU
+  have hsub : ∀ x ∈ pend t', x ∈ pend t := by
+    intro x hx; rw [hpt]; exact List.mem_cons_of_mem _ (hp.subset hx)
+  constructor
+  · intro j tj hj
+    rcases get_set_cases hj with ⟨rfl, rfl⟩ | ⟨hji, hj⟩
+    · constructor
+      · exact List.Nodup.sublist (hp.map _) hU.2
+      · intro x hx y hy
+        rw [puts_append] at hy
+        rcases List.mem_append.1 hy with hy | hy
+        · exact (I.ok _ t hi).pendPuts x (hsub x hx) y hy
+        · simp at hy; subst hy
+          intro hh
+          exact hU.1 (hh ▸ List.mem_map_of_mem (hp.subset hx))
+      · intro hd hh; exact absurd hh (hpop hd)
+      · intro hd dl hh; exact absurd hh (hsl hd dl)
+    · have ok := I.ok j tj hj
+      constructor
+      · exact ok.pendU
+      · intro x hx y hy
+        rw [puts_append] at hy
+        rcases List.mem_append.1 hy with hy | hy
+        · exact ok.pendPuts x hx y hy
+        · simp at hy; subst hy
+          exact I.pendX j i tj t hj hi hji x hx y (by rw [hpt]; simp)
+      · intro hd hh
+        obtain ⟨⟨a', ha'⟩, h2⟩ := ok.popOk hd hh
+        exact ⟨⟨a', List.mem_append_left _ ha'⟩, h2⟩
+      · intro hd dl hh
+        obtain ⟨⟨a', ha'⟩, h2⟩ := ok.sleepOk hd dl hh
+        exact ⟨⟨a', List.mem_append_left _ ha'⟩, h2⟩
+  · intro j k tj tk hj hk hjk x hx y hy
+    rcases get_set_cases hj with ⟨rfl, rfl⟩ | ⟨hji, hj'⟩ <;>
+      rcases get_set_cases hk with ⟨rfl, rfl⟩ | ⟨hki, hk'⟩
+    · exact absurd rfl hjk
+    · exact I.pendX _ _ _ _ hi hk' hjk x (hsub x hx) y hy
+    · exact I.pendX _ _ _ _ hj' hi hjk x hx y (hsub y hy)
+    · exact I.pendX _ _ _ _ hj' hk' hjk x hx y hy
+
+theorem notifyThreads_get_some {ths : List Thread} (ws : List Nat) {j : Nat} {t : Thread}
+    (h : ths[j]? = some t) :
+    ∃ t1, (notifyThreads ths ws)[j]? = some t1 ∧ t1.pc = t.pc ∧ t1.script = t.script := by
+  rw [notifyThreads_get, h]
+  simp only [Option.map_some]
+  split
+  · exact ⟨_, rfl, rfl, rfl⟩
+  · exact ⟨_, rfl, rfl, rfl⟩
+
+theorem InvT.notify_set {D c h ths i t t'} (I : InvT D c h ths) (ws : List Nat) (hi : ths[i]? = some t)
+    (ok : TOk D c h t') (hp : ∀ e ∈ pend t', e ∈ pend t) :
+    InvT D c h ((notifyThreads ths ws).set i t') := by
+  obtain ⟨t1, h1, h2, h3⟩ := notifyThreads_get_some ws hi
+  exact (I.notify ws).set h1 ok (by rw [pend_congr h2 h3]; exact hp)
+
+theorem arriveTO_pc (c : Nat) (t : Thread) (f : Bool) (ops : List Op) :
+    (∀ hd, (arriveTO c t f ops).pc ≠ .getPop hd) ∧ (∀ hd dl, (arriveTO c t f ops).pc ≠ .getSleep hd dl) ∧
+      (arriveTO c t f ops).pc ≠ .getWait ∧ (arriveTO c t f ops).pc ≠ .closeAcq := by
+  induction ops generalizing f with
+  | nil => simp [arriveTO]
+  | cons op rest ih =>
+    cases op <;> simp [arriveTO]
+    · exact ih _
+    · split
+      · simp
+      · exact ih _
+
+theorem arriveT_pc (c : Nat) (f : Bool) (t : Thread) :
+    (∀ hd, (arriveT c f t).pc ≠ .getPop hd) ∧ (∀ hd dl, (arriveT c f t).pc ≠ .getSleep hd dl) ∧
+      (arriveT c f t).pc ≠ .getWait ∧ (arriveT c f t).pc ≠ .closeAcq := arriveTO_pc c t f t.script
+
+theorem TOk.arrive {D c h t} (I : TOk D c h t) (c' : Nat) (f : Bool) : TOk D c h (arriveT c' f t) := by
+  have hsub : (pend (arriveT c' f t)).Sublist (pend t) := by
+    refine (pend_arriveT c' f t).trans ?_; unfold pend; exact List.sublist_append_right _ _
+  constructor
+  · exact List.Nodup.sublist (hsub.map _) I.pendU
+  · intro e he; exact I.pendPuts e (hsub.subset he)
+  · intro hd hh; exact absurd hh ((arriveT_pc c' f t).1 hd)
+  · intro hd dl hh; exact absurd hh ((arriveT_pc c' f t).2.1 hd dl)
+
+theorem pend_arriveT_sub (c : Nat) (f : Bool) (t : Thread) : ∀ e ∈ pend (arriveT c f t), e ∈ pend t := by
+  intro e he; exact opPuts_sub_pend ((pend_arriveT c f t).subset he)
+
+theorem TOk.repc {D c h t} (I : TOk D c h t) (t' : Thread) (hp : pend t' = pend t)
+    (pop : ∀ hd, t'.pc = .getPop hd →
+      (∃ a, Obs.put a hd.elem hd.delayed hd.ins ∈ h) ∧ (hd.delayed = true → hd.ins + D ≤ c))
+    (sl : ∀ hd dl, t'.pc = .getSleep hd dl →
+      (∃ a, Obs.put a hd.elem hd.delayed hd.ins ∈ h) ∧ hd.ins + D ≤ dl) : TOk D c h t' :=
+  ⟨hp ▸ I.pendU, hp ▸ I.pendPuts, pop, sl⟩
+
+theorem eq_of_nodup_map {α β} (f : α → β) {l : List α} (hnd : (l.map f).Nodup) {a b : α}
+    (ha : a ∈ l) (hb : b ∈ l) (hab : f a = f b) : a = b := by
+  induction l with
+  | nil => simp at ha
+  | cons x l ih =>
+    simp only [List.map_cons, List.nodup_cons] at hnd
+    rcases List.mem_cons.1 ha with rfl | ha' <;> rcases List.mem_cons.1 hb with rfl | hb'
+    · rfl
+    · exact absurd (hab ▸ List.mem_map_of_mem hb') hnd.1
+    · exact absurd (hab ▸ List.mem_map_of_mem ha') hnd.1
+    · exact ih hnd.2 ha' hb'
+
+/-! ### the invariant and its preservation -/
+
+structure Inv (D : Nat) (s : State) : Prop where
+  dl : s.delay = D
+  H : InvH D s.hist s.queue
+  T : InvT D s.clock s.hist s.threads
+
+theorem pend_not_put {t : Thread} (h : ∀ e d, t.pc ≠ .putAcq e d) : pend t = opPuts t.script := by
+  unfold pend
+  split
+  · rename_i e d heq; exact absurd heq (h e d)
+  · simp
+
+theorem getLocked_inv {D s tid t t0} (I : Inv D s) (ht : s.threads[tid]? = some t0)
+    (h1 : t.pc = t0.pc) (h2 : t.script = t0.script) (hnp : ∀ e d, t.pc ≠ .putAcq e d) :
+    Inv D (getLocked s tid t) := by
+  obtain ⟨hdl, H, T⟩ := I
+  have ok : TOk D s.clock s.hist t := (T.ok tid t0 ht).congr h1 h2
+  have hpe : pend t = pend t0 := pend_congr h1 h2
+  have hclosed : Inv D (arrive { s with hist := s.hist ++ [.gotNone tid s.clock] } tid t) := by
+    simp only [arrive_eq]
+    refine ⟨hdl, H.neutral _ trivial, ?_⟩
+    have T' : InvT D s.clock (s.hist ++ [.gotNone tid s.clock]) s.threads :=
+      T.mono (Nat.le_refl _) (fun o ho => List.mem_append_left _ ho) (by simp [puts_append])
+    have ok' := ((T'.ok tid t0 ht).congr h1 h2).arrive s.clock s.stopFlag
+    exact T'.set ht ok' (fun e he => hpe ▸ pend_arriveT_sub _ _ _ e he)
+  unfold getLocked
+  split
+  · split
+    · exact hclosed
+    · simp only [State.setThread]
+      refine ⟨hdl, H, T.set ht (ok.repc _ ?_ ?_ ?_) ?_⟩
+      · rw [pend_not_put hnp, pend_not_put (by simp)]
+      · simp
+      · simp
+      · intro e he; rw [pend_not_put (by simp)] at he; rw [← hpe, pend_not_put hnp]; exact he
+  · rename_i head rest hq
+    have hput : ∃ a, Obs.put a head.elem head.delayed head.ins ∈ s.hist :=
+      H.qHist head (by rw [hq]; simp)
+    split
+    · exact hclosed
+    · split
+      · rename_i hc hearly
+        simp only [State.setThread]
+        refine ⟨hdl, H, T.set ht (ok.repc _ ?_ ?_ ?_) ?_⟩
+        · rw [pend_not_put hnp, pend_not_put (by simp)]
+        · simp
+        · intro hd dl hh
+          simp at hh
+          obtain ⟨rfl, rfl⟩ := hh
+          exact ⟨hput, by omega⟩
+        · intro e he; rw [pend_not_put (by simp)] at he; rw [← hpe, pend_not_put hnp]; exact he
+      · rename_i hc hearly
+        simp only [State.setThread]
+        refine ⟨hdl, H, T.set ht (ok.repc _ ?_ ?_ ?_) ?_⟩
+        · rw [pend_not_put hnp, pend_not_put (by simp)]
+        · intro hd hh
+          simp at hh
+          subst hh
+          refine ⟨hput, fun hdel => ?_⟩
+          simp [hdel] at hearly
+          omega
+        · simp
+        · intro e he; rw [pend_not_put (by simp)] at he; rw [← hpe, pend_not_put hnp]; exact he
+
+theorem step_inv {D s tid s'} (I : Inv D s) (hs : step s tid = some s') : Inv D s' := by
+  have I0 := I
+  obtain ⟨hdl, H, T⟩ := I
+  unfold step at hs
+  split at hs
+  · simp at hs
+  rename_i hen
+  split at hs
+  · simp at hs
+  rename_i t ht
+  simp only [State.thread?] at ht
+  have ok := T.ok tid t ht
+  -- neutral history extension
+  have Tn : ∀ o, puts (s.hist ++ [o]) = puts s.hist → InvT D s.clock (s.hist ++ [o]) s.threads :=
+    fun o ho => T.mono (Nat.le_refl _) (fun o ho => List.mem_append_left _ ho) ho
+  split at hs
+  all_goals (try (simp only [Option.some.injEq] at hs; subst hs))
+  · -- begin
+    simp only [arrive_eq]
+    exact ⟨hdl, H, T.set ht (ok.arrive _ _) (pend_arriveT_sub _ _ _)⟩
+  · -- putAcq
+    rename_i e d hpc
+    simp only [arrive_eq, notifyOne_eq]
+    have hpt : pend t = e :: opPuts t.script := by simp [pend, hpc]
+    refine ⟨hdl, H.put _ _ _ _ (ok.pendPuts e (by rw [hpt]; simp)), ?_⟩
+    obtain ⟨t1, h1, h2, h3⟩ := notifyThreads_get_some s.waiters ht
+    exact (T.notify s.waiters).put tid h1 (h2 ▸ hpc) (arriveT_pc _ _ _).1 (arriveT_pc _ _ _).2.1
+      (by rw [h3]; exact pend_arriveT _ _ _)
+  · -- getAcq
+    rename_i hpc
+    exact getLocked_inv I0 ht rfl rfl (by simp [hpc])
+  · -- getWait
+    rename_i hpc
+    exact getLocked_inv I0 ht rfl rfl (by simp [hpc])
+  · -- getSleep
+    rename_i head dl hpc
+    simp only [State.setThread]
+    have hdl' : dl ≤ s.clock := by
+      simp [enabled, State.thread?, ht, hpc] at hen; exact hen
+    refine ⟨hdl, H, T.set ht (ok.repc _ ?_ ?_ ?_) ?_⟩
+    · rw [pend_not_put (by simp), pend_not_put (by simp [hpc])]
+    · intro hd hh
+      simp at hh; subst hh
+      obtain ⟨hp, hle⟩ := ok.sleepOk _ _ hpc
+      exact ⟨hp, fun _ => by omega⟩
+    · simp
+    · intro e he; rw [pend_not_put (by simp)] at he; rw [pend_not_put (by simp [hpc])]; exact he
+  · -- getPop
+    rename_i head hpc
+    have back : Inv D (s.setThread tid { t with pc := .getAcq }) := by
+      simp only [State.setThread]
+      refine ⟨hdl, H, T.set ht (ok.repc _ ?_ ?_ ?_) ?_⟩
+      · rw [pend_not_put (by simp), pend_not_put (by simp [hpc])]
+      · simp
+      · simp
+      · intro e he; rw [pend_not_put (by simp)] at he; rw [pend_not_put (by simp [hpc])]; exact he
+    split at hs
+    · rename_i h rest hq
+      split at hs
+      · rename_i huid
+        simp only [Option.some.injEq] at hs; subst hs
+        obtain ⟨⟨a1, hp1⟩, hle⟩ := ok.popOk _ hpc
+        obtain ⟨a2, hp2⟩ := H.qHist h (by rw [hq]; simp)
+        have heq : h.elem = head.elem :=
+          eq_of_nodup_map Elem.uid H.putsU (mem_puts.2 ⟨_, _, _, hp2⟩) (mem_puts.2 ⟨_, _, _, hp1⟩) huid
+        simp only [arrive_eq]
+        rw [hq] at H
+        refine ⟨hdl, ?_, ?_⟩
+        · rw [← heq]
+          apply H.got
+          intro a' t0 hp3
+          rw [heq] at hp3
+          obtain ⟨hd1, hd2⟩ := H.putUniq _ _ _ _ _ _ _ hp1 hp3
+          subst hd2
+          exact hle hd1
+        · have T' := Tn (.got tid head.elem s.clock) (by simp [puts_append])
+          exact T'.set ht ((T'.ok tid t ht).arrive _ _) (pend_arriveT_sub _ _ _)
+      · simp only [Option.some.injEq] at hs; subst hs; exact back
+    · simp only [Option.some.injEq] at hs; subst hs; exact back
+  · -- remAcq
+    rename_i v hpc
+    split at hs
+    · rename_i e q hrf
+      simp only [Option.some.injEq] at hs; subst hs
+      simp only [arrive_eq]
+      refine ⟨hdl, H.removed _ _ hrf, ?_⟩
+      have T' := Tn (.removed tid e.elem s.clock) (by simp [puts_append])
+      exact T'.set ht ((T'.ok tid t ht).arrive _ _) (pend_arriveT_sub _ _ _)
+    · simp only [Option.some.injEq] at hs; subst hs
+      simp only [arrive_eq]
+      refine ⟨hdl, H.neutral _ trivial, ?_⟩
+      have T' := Tn (.removedNone tid s.clock) (by simp [puts_append])
+      exact T'.set ht ((T'.ok tid t ht).arrive _ _) (pend_arriveT_sub _ _ _)
+  · -- closeFlag
+    rename_i hpc
+    simp only [State.setThread]
+    refine ⟨hdl, H, T.set ht (ok.repc _ ?_ ?_ ?_) ?_⟩
+    · rw [pend_not_put (by simp), pend_not_put (by simp [hpc])]
+    · simp
+    · simp
+    · intro e he; rw [pend_not_put (by simp)] at he; rw [pend_not_put (by simp [hpc])]; exact he
+  · -- closeAcq
+    rename_i hpc
+    simp only [arrive_eq, notifyOne_eq]
+    refine ⟨hdl, H.neutral _ trivial, ?_⟩
+    have T' := Tn (.closed tid s.clock) (by simp [puts_append])
+    exact T'.notify_set _ ht ((T'.ok tid t ht).arrive _ _) (pend_arriveT_sub _ _ _)
+  · -- sleeping
+    simp only [arrive_eq]
+    exact ⟨hdl, H, T.set ht (ok.arrive _ _) (pend_arriveT_sub _ _ _)⟩
+  · -- waitingStop
+    simp only [arrive_eq]
+    exact ⟨hdl, H, T.set ht (ok.arrive _ _) (pend_arriveT_sub _ _ _)⟩
+  · -- joining
+    simp only [arrive_eq]
+    exact ⟨hdl, H, T.set ht (ok.arrive _ _) (pend_arriveT_sub _ _ _)⟩
+  · simp at hs
+
+theorem act_inv {D s} (I : Inv D s) (a : Action) : Inv D (act s a) := by
+  cases a with
+  | step tid =>
+    simp only [act]
+    cases hs : step s tid with
+    | none => exact I
+    | some s' => exact step_inv I hs
+  | tick d =>
+    simp only [act]
+    exact ⟨I.dl, I.H, I.T.mono (Nat.le_add_right _ _) (fun _ h => h) rfl⟩
+
+theorem run_inv {D s} (I : Inv D s) (as : List Action) : Inv D (run s as) := by
+  induction as generalizing s with
+  | nil => exact I
+  | cons a as ih => exact ih (act_inv I a)
+
+theorem init_inv (delay : Nat) (scripts : List (List Op)) (h : distinctPuts scripts) :
+    Inv delay (init delay scripts) := by
+  unfold distinctPuts at h
+  have h' := List.pairwise_map.1 h
+  obtain ⟨hin, hx⟩ := List.pairwise_flatMap.1 h'
+  have hx' := List.pairwise_iff_getElem.1 hx
+  have hget : ∀ (i : Nat) t, (init delay scripts).threads[i]? = some t →
+      ∃ sc, scripts[i]? = some sc ∧ pend t = opPuts sc ∧ t.pc = .begin := by
+    intro i t hi
+    simp only [init, List.getElem?_map] at hi
+    cases hsc : scripts[i]? with
+    | none => simp [hsc] at hi
+    | some sc =>
+      simp [hsc] at hi
+      subst hi
+      exact ⟨sc, rfl, by simp [pend], rfl⟩
+  refine ⟨rfl, InvH.init _, ?_, ?_⟩
+  · intro i t hi
+    obtain ⟨sc, hsc, hp, hpc⟩ := hget i t hi
+    constructor
+    · rw [hp]; exact List.pairwise_map.2 (hin sc (List.mem_of_getElem? hsc))
+    · intro e _ e' he'; simp [init, puts] at he'
+    · intro hd hh; rw [hpc] at hh; cases hh
+    · intro hd dl hh; rw [hpc] at hh; cases hh
+  · intro i j ti tj hi hj hij e he e' he'
+    obtain ⟨sci, hsci, hpi, _⟩ := hget i ti hi
+    obtain ⟨scj, hscj, hpj, _⟩ := hget j tj hj
+    rw [hpi] at he
+    rw [hpj] at he'
+    obtain ⟨hli, rfl⟩ := List.getElem?_eq_some_iff.1 hsci
+    obtain ⟨hlj, rfl⟩ := List.getElem?_eq_some_iff.1 hscj
+    rcases Nat.lt_or_gt_of_ne hij with hlt | hgt
+    · exact hx' i j hli hlj hlt e he e' he'
+    · exact fun hh => hx' j i hlj hli hgt e' he' e he hh.symm
+
+theorem reach_inv (delay : Nat) (scripts : List (List Op)) (as : List Action) (h : distinctPuts scripts) :
+    Inv delay (run (init delay scripts) as) :=
+  run_inv (init_inv delay scripts h) as
+
+theorem InvH.gots_sub_live {D h q} (I : InvH D h q) : (gots h).Sublist (live h) := by
+  rw [I.acc]; exact List.sublist_append_left _ _
+
+
+/-! ### times in the history are not in the future -/
+
+def GotLe (s : State) : Prop := ∀ a e t, Obs.got a e t ∈ s.hist → t ≤ s.clock
+
+theorem getLocked_clock_hist (s : State) (tid : Nat) (t : Thread) :
+    (getLocked s tid t).clock = s.clock ∧
+      ∀ a e c, Obs.got a e c ∈ (getLocked s tid t).hist → Obs.got a e c ∈ s.hist := by
+  unfold getLocked
+  split
+  · split <;> simp [arrive_eq, State.setThread]
+  · split
+    · simp [arrive_eq]
+    · split <;> simp [State.setThread]
+
+theorem step_clock_hist {s tid s'} (hs : step s tid = some s') :
+    s'.clock = s.clock ∧ ∀ a e c, Obs.got a e c ∈ s'.hist → Obs.got a e c ∈ s.hist ∨ c = s.clock := by
+  unfold step at hs
+  split at hs
+  · simp at hs
+  split at hs
+  · simp at hs
+  rename_i t ht
+  split at hs
+  all_goals (try (simp only [Option.some.injEq] at hs; subst hs))
+  · simp [arrive_eq] <;> (try (intro a e c h; exact Or.inl h))
+  · simp [arrive_eq, notifyOne_eq] <;> (try (intro a e c h; exact Or.inl h))
+  · exact ⟨(getLocked_clock_hist ..).1, fun a e c h => Or.inl ((getLocked_clock_hist ..).2 a e c h)⟩
+  · exact ⟨(getLocked_clock_hist ..).1, fun a e c h => Or.inl ((getLocked_clock_hist ..).2 a e c h)⟩
+  · simp [State.setThread] <;> (try (intro a e c h; exact Or.inl h))
+  · split at hs
+    · split at hs
+      · simp only [Option.some.injEq] at hs; subst hs
+        simp only [arrive_eq, List.mem_append, List.mem_singleton, true_and]
+        intro a e c hh
+        rcases hh with hh | hh
+        · exact Or.inl hh
+        · injection hh with _ _ hc; exact Or.inr hc
+      · simp only [Option.some.injEq] at hs; subst hs; simp [State.setThread] <;> (try (intro a e c h; exact Or.inl h))
+    · simp only [Option.some.injEq] at hs; subst hs; simp [State.setThread] <;> (try (intro a e c h; exact Or.inl h))
+  · split at hs <;> (simp only [Option.some.injEq] at hs; subst hs; simp [arrive_eq] <;> (try (intro a e c h; exact Or.inl h)))
+  · simp [State.setThread] <;> (try (intro a e c h; exact Or.inl h))
+  · simp [arrive_eq, notifyOne_eq] <;> (try (intro a e c h; exact Or.inl h))
+  · simp [arrive_eq] <;> (try (intro a e c h; exact Or.inl h))
+  · simp [arrive_eq] <;> (try (intro a e c h; exact Or.inl h))
+  · simp [arrive_eq] <;> (try (intro a e c h; exact Or.inl h))
+  · simp at hs
+
+theorem act_gotLe {s} (G : GotLe s) (a : Action) : GotLe (act s a) := by
+  cases a with
+  | step tid =>
+    simp only [act]
+    cases hs : step s tid with
+    | none => exact G
+    | some s' =>
+      obtain ⟨hc, hh⟩ := step_clock_hist hs
+      intro a e c hg
+      simp only [Option.getD_some] at hg ⊢
+      rcases hh a e c hg with h1 | h1
+      · rw [hc]; exact G a e c h1
+      · rw [hc, h1]; exact Nat.le_refl _
+  | tick d =>
+    intro a e c hg
+    simp only [act] at hg ⊢
+    exact Nat.le_trans (G a e c hg) (Nat.le_add_right _ _)
+
+theorem run_gotLe {s} (G : GotLe s) (as : List Action) : GotLe (run s as) := by
+  induction as generalizing s with
+  | nil => exact G
+  | cons a as ih => exact ih (act_gotLe G a)
+
+theorem reach_gotLe (delay : Nat) (scripts : List (List Op)) (as : List Action) :
+    GotLe (run (init delay scripts) as) :=
+  run_gotLe (by intro a e c hg; simp [init] at hg) as
+
+/-! ### the queue theorems -/
+
 theorem accounting (delay : Nat) (scripts : List (List Op)) (as : List Action) (h : distinctPuts scripts) :
     live (run (init delay scripts) as).hist =
-      gots (run (init delay scripts) as).hist ++ (run (init delay scripts) as).queue.map Entry.elem := by
-  sorry
+      gots (run (init delay scripts) as).hist ++ (run (init delay scripts) as).queue.map Entry.elem :=
+  (reach_inv delay scripts as h).H.acc
 
 theorem never_both (delay : Nat) (scripts : List (List Op)) (as : List Action) (h : distinctPuts scripts) :
     (gots (run (init delay scripts) as).hist ++ removeds (run (init delay scripts) as).hist).Nodup := by
-  sorry
+  have H := (reach_inv delay scripts as h).H
+  refine List.nodup_append.2 ⟨List.Nodup.sublist H.gots_sub_live H.live_nodup, H.remNodup, ?_⟩
+  intro a ha b hb hab
+  subst hab
+  exact not_removed_of_live (H.gots_sub_live.subset ha) hb
 
 theorem order (delay : Nat) (scripts : List (List Op)) (as : List Action) (h : distinctPuts scripts) :
     (gots (run (init delay scripts) as).hist).Sublist (puts (run (init delay scripts) as).hist) := by
-  sorry
+  have H := (reach_inv delay scripts as h).H
+  exact H.gots_sub_live.trans List.filter_sublist
 
 theorem alone_not_early (delay : Nat) (scripts : List (List Op)) (as : List Action) (h : distinctPuts scripts)
     (tid tid' : Nat) (e : Elem) (t t0 : Nat)
     (hg : Obs.got tid e t ∈ (run (init delay scripts) as).hist)
-    (hp : Obs.put tid' e true t0 ∈ (run (init delay scripts) as).hist) : t0 + delay ≤ t := by
-  sorry
+    (hp : Obs.put tid' e true t0 ∈ (run (init delay scripts) as).hist) : t0 + delay ≤ t :=
+  (reach_inv delay scripts as h).H.ne _ _ _ _ _ hg hp
 
 theorem pending_until_delay (delay : Nat) (scripts : List (List Op)) (as : List Action) (h : distinctPuts scripts)
     (tid : Nat) (e : Elem) (t0 : Nat)
@@ -29,7 +903,31 @@ theorem pending_until_delay (delay : Nat) (scripts : List (List Op)) (as : List 
     (hr : e ∉ removeds (run (init delay scripts) as).hist)
     (hc : (run (init delay scripts) as).clock < t0 + delay) :
     e ∈ (run (init delay scripts) as).queue.map Entry.elem := by
-  sorry
+  have I := reach_inv delay scripts as h
+  have G := reach_gotLe delay scripts as
+  have hl : e ∈ live (run (init delay scripts) as).hist := by
+    simp only [live, List.mem_filter]
+    exact ⟨mem_puts.2 ⟨_, _, _, hp⟩, by simpa using hr⟩
+  rw [I.H.acc] at hl
+  rcases List.mem_append.1 hl with hg | hq
+  · obtain ⟨a, t, hgot⟩ := mem_gots.1 hg
+    have h1 := I.H.ne _ _ _ _ _ hgot hp
+    have h2 := G _ _ _ hgot
+    omega
+  · exact hq
+
+theorem removeFirst_of_mem {v : Nat} {q : List Entry} (x : Entry) (hx : x ∈ q) (hv : x.elem.val = v) :
+    ∃ y q', removeFirst v q = some (y, q') ∧ y.elem.val = v := by
+  induction q with
+  | nil => simp at hx
+  | cons z rest ih =>
+    unfold removeFirst
+    by_cases hz : z.elem.val = v
+    · simp [hz]
+    · rcases List.mem_cons.1 hx with rfl | hx'
+      · exact absurd hv hz
+      · obtain ⟨y, q', h1, h2⟩ := ih hx'
+        simp [hz, h1, h2]
 
 theorem pairs_when_in_time (delay : Nat) (scripts : List (List Op)) (as : List Action) (h : distinctPuts scripts)
     (tid tid' : Nat) (t : Thread) (e : Elem) (t0 v : Nat)
@@ -39,19 +937,135 @@ theorem pairs_when_in_time (delay : Nat) (scripts : List (List Op)) (as : List A
     (ht : (run (init delay scripts) as).thread? tid = some t) (hpc : t.pc = .remAcq v) (hv : e.val = v) :
     ∃ s1 e', step (run (init delay scripts) as) tid = some s1 ∧ e'.val = v ∧
       s1.hist = (run (init delay scripts) as).hist ++ [.removed tid e' (run (init delay scripts) as).clock] := by
-  sorry
+  have hq := pending_until_delay delay scripts as h tid' e t0 hp hr hc
+  generalize run (init delay scripts) as = s at *
+  obtain ⟨x, hx, rfl⟩ := List.mem_map.1 hq
+  obtain ⟨y, q', hrf, hy⟩ := removeFirst_of_mem x hx hv
+  have hen : enabled s tid = true := by simp [enabled, ht, hpc]
+  refine ⟨arrive { s with queue := q', hist := s.hist ++ [.removed tid y.elem s.clock] } tid t, y.elem, ?_, hy, ?_⟩
+  · simp [step, hen, ht, hpc, hrf]
+  · simp [arrive_eq]
+
+/-! ### grouping -/
+
+def gstep (slot0 : Nat) (acc : List Item × List Nat) (ev : Rec) : List Item × List Nat :=
+  if ev.movedTo then
+    match pairInBatch ev acc.1 with
+    | some g => (g, acc.2)
+    | none => (acc.1 ++ [.lookup (slot0 + acc.2.length) ev], acc.2 ++ [ev.cookie])
+  else (acc.1 ++ [.single ev], acc.2)
+
+theorem groupBatch_eq (batch : List Rec) (slot0 : Nat) :
+    groupBatch batch slot0 = batch.foldl (gstep slot0) ([], []) := rfl
+
+theorem pairInBatch_spec {t : Rec} {l g : List Item} (h : pairInBatch t l = some g) :
+    ∃ l1 r l2, l = l1 ++ .single r :: l2 ∧ g = l1 ++ .pair r t :: l2 ∧
+      r.movedFrom = true ∧ r.cookie = t.cookie := by
+  induction l generalizing g with
+  | nil => simp [pairInBatch] at h
+  | cons it rest ih =>
+    have other : ∀ g', pairInBatch t rest = some g' → g = it :: g' →
+        ∃ l1 r l2, it :: rest = l1 ++ .single r :: l2 ∧ g = l1 ++ .pair r t :: l2 ∧
+          r.movedFrom = true ∧ r.cookie = t.cookie := by
+      intro g' hg' hg
+      obtain ⟨l1, r, l2, h1, h2, h3, h4⟩ := ih hg'
+      exact ⟨it :: l1, r, l2, by simp [h1], by simp [hg, h2], h3, h4⟩
+    cases it with
+    | single r =>
+      unfold pairInBatch at h
+      split at h
+      · rename_i hc
+        simp only [Bool.and_eq_true, beq_iff_eq] at hc
+        simp only [Option.some.injEq] at h
+        exact ⟨[], r, rest, rfl, h.symm, hc.1, hc.2⟩
+      · obtain ⟨g', hg', hg⟩ := Option.map_eq_some_iff.1 h
+        exact other g' hg' hg.symm
+    | pair f t' =>
+      unfold pairInBatch at h
+      obtain ⟨g', hg', hg⟩ := Option.map_eq_some_iff.1 h
+      exact other g' hg' hg.symm
+    | lookup n t' =>
+      unfold pairInBatch at h
+      obtain ⟨g', hg', hg⟩ := Option.map_eq_some_iff.1 h
+      exact other g' hg' hg.symm
+
+/-- induction principle for `groupBatch` -/
+theorem groupBatch_ind (slot0 : Nat) (P : List Rec → List Item → Prop) (h0 : P [] [])
+    (hs : ∀ b l ev, P b l → ev.movedTo = false → P (b ++ [ev]) (l ++ [.single ev]))
+    (hl : ∀ b l ev n, P b l → ev.movedTo = true → P (b ++ [ev]) (l ++ [.lookup n ev]))
+    (hp : ∀ b l ev g, P b l → ev.movedTo = true → pairInBatch ev l = some g → P (b ++ [ev]) g)
+    (batch : List Rec) : P batch (groupBatch batch slot0).1 := by
+  have gen : ∀ (batch b0 : List Rec) (acc : List Item × List Nat), P b0 acc.1 →
+      P (b0 ++ batch) (batch.foldl (gstep slot0) acc).1 := by
+    intro batch
+    induction batch with
+    | nil => intro b0 acc h; simpa using h
+    | cons ev rest ih =>
+      intro b0 acc h
+      have : b0 ++ ev :: rest = (b0 ++ [ev]) ++ rest := by simp
+      rw [this, List.foldl_cons]
+      apply ih
+      unfold gstep
+      split
+      · rename_i hm
+        split
+        · rename_i g hg; exact hp _ _ _ _ h hm hg
+        · exact hl _ _ _ _ h hm
+      · rename_i hm
+        exact hs _ _ _ h (by simpa using hm)
+  simpa [groupBatch_eq] using gen batch [] ([], []) h0
 
 theorem group_covers (batch : List Rec) (slot0 : Nat) :
     ((groupBatch batch slot0).1.flatMap itemRecs).Perm batch := by
-  sorry
+  refine groupBatch_ind slot0 (fun b l => (l.flatMap itemRecs).Perm b) (by simp) ?_ ?_ ?_ batch
+  · intro b l ev h _
+    simpa [List.flatMap_append, itemRecs] using h.append_right [ev]
+  · intro b l ev n h _
+    simpa [List.flatMap_append, itemRecs] using h.append_right [ev]
+  · intro b l ev g h _ hg
+    obtain ⟨l1, r, l2, rfl, rfl, _, _⟩ := pairInBatch_spec hg
+    refine List.Perm.trans ?_ (h.append_right [ev])
+    simp only [List.flatMap_append, List.flatMap_cons, itemRecs, List.append_assoc, List.cons_append,
+      List.nil_append]
+    refine List.Perm.append_left _ (List.Perm.cons _ ?_)
+    exact (List.perm_append_singleton ev _).symm
 
 theorem group_pairs (batch : List Rec) (slot0 : Nat) (f t : Rec)
     (h : Item.pair f t ∈ (groupBatch batch slot0).1) :
     f.movedFrom = true ∧ t.movedTo = true ∧ f.cookie = t.cookie ∧ f ∈ batch ∧ t ∈ batch := by
-  sorry
+  have hmem : ∀ x ∈ itemRecs (Item.pair f t), x ∈ batch := by
+    intro x hx
+    exact (group_covers batch slot0).subset (List.mem_flatMap.2 ⟨_, h, hx⟩)
+  have key : ∀ f t, Item.pair f t ∈ (groupBatch batch slot0).1 →
+      f.movedFrom = true ∧ t.movedTo = true ∧ f.cookie = t.cookie := by
+    refine groupBatch_ind slot0 (fun _ l => ∀ f t, Item.pair f t ∈ l →
+      f.movedFrom = true ∧ t.movedTo = true ∧ f.cookie = t.cookie) (by simp) ?_ ?_ ?_ batch
+    · intro b l ev ih _ f t hft
+      simp at hft; exact ih f t hft
+    · intro b l ev n ih _ f t hft
+      simp at hft; exact ih f t hft
+    · intro b l ev g ih hm hg f t hft
+      obtain ⟨l1, r, l2, rfl, rfl, h3, h4⟩ := pairInBatch_spec hg
+      simp only [List.mem_append, List.mem_cons] at hft
+      rcases hft with h1 | h1 | h1
+      · exact ih f t (by simp [h1])
+      · injection h1 with hf ht; subst hf ht; exact ⟨h3, hm, h4⟩
+      · exact ih f t (by simp [h1])
+  obtain ⟨h1, h2, h3⟩ := key f t h
+  exact ⟨h1, h2, h3, hmem f (by simp [itemRecs]), hmem t (by simp [itemRecs])⟩
 
 theorem group_singles_order (batch : List Rec) (slot0 : Nat) :
     ((groupBatch batch slot0).1.filterMap (fun it => match it with | .single r => some r | _ => none)).Sublist batch := by
-  sorry
+  refine groupBatch_ind slot0 (fun b l =>
+    (l.filterMap (fun it => match it with | .single r => some r | _ => none)).Sublist b) (by simp) ?_ ?_ ?_ batch
+  · intro b l ev h _
+    simpa [List.filterMap_append] using h.append (List.Sublist.refl [ev])
+  · intro b l ev n h _
+    simpa [List.filterMap_append] using h.trans (List.sublist_append_left b [ev])
+  · intro b l ev g h _ hg
+    obtain ⟨l1, r, l2, rfl, rfl, _, _⟩ := pairInBatch_spec hg
+    refine List.Sublist.trans ?_ (h.trans (List.sublist_append_left b [ev]))
+    simp only [List.filterMap_append, List.filterMap_cons]
+    exact List.Sublist.append_left (List.sublist_cons_self _ _) _
 
 end WD.ProofsIB
